@@ -305,8 +305,9 @@ def run(ctx, spec):
         admdrv = vlib.build_admdrv('plain')
         tr_ok, tr_out, tr_stats = vlib.translate()
         proof = vlib.coq_check_props(prop)
+        use_model = getattr(spec, 'use_model', True)
         try:
-            modeldrv = vlib.build_modeldrv()
+            modeldrv = vlib.build_modeldrv() if use_model else None
         except vlib.CheckError as e:
             modeldrv = None
             ctx.notes.append('model does not build: %s' % str(e)[-800:])
@@ -341,14 +342,15 @@ def run(ctx, spec):
         if spec.nontrivial(ops):
             nontrivial.add('\n'.join(c))
     found = False
+    snapfn = with_snapshots if getattr(spec, 'snapshots', True) else (lambda lines: lines)
     for tag, (k, msg) in sorted(findings.items()):
         found = True
 
         def fails(lines, tag=tag):
-            lines = with_snapshots(lines)
+            lines = snapfn(lines)
             out = run_cases(admdrv, [lines], shards=1)[0]
             return any(t == tag for t, _m in spec.oracle(lines, split_ops(lines, out)))
-        small = with_snapshots(shrink(cases[k], fails))
+        small = snapfn(spec.shrink(cases[k], fails) if hasattr(spec, 'shrink') else shrink(cases[k], fails))
         out = run_cases(admdrv, [small], shards=1)[0]
         msgs = [m for t, m in spec.oracle(small, split_ops(small, out)) if t == tag]
         ctx.violation(msgs[0] if msgs else msg,
@@ -372,7 +374,7 @@ def run(ctx, spec):
                       % (first, a[first] if first < len(a) else None, b[first] if first < len(b) else None),
                       dict(kind='correspondence', correspondence=spec.what, script=small, libadm_output=a,
                            model_output=b, disagreeing_cases=len(disagreements)), found_input=False)
-    if modeldrv is None and not found:
+    if modeldrv is None and use_model and not found:
         ctx.violation('the executable model does not build, so the correspondence could not run',
                       dict(kind='model-build', notes=ctx.notes), found_input=False)
     if not tr_ok:
@@ -389,6 +391,8 @@ def run(ctx, spec):
         explanation='theorems are universally quantified over histories of the model; the explored part validates '
                     'the model against libadm (full snapshots compared) and applies the property oracle to libadm')
     ctx.assumptions += spec.assumptions
+    if hasattr(spec, 'extra'):
+        spec.extra(ctx, proof, found)
     return ctx.finish(proof)
 
 
